@@ -1,14 +1,14 @@
 #!/bin/bash
 # tools/confirm_store.sh <PROP> : confirm /tmp/wt-out/<PROP>/m{1,2}.* in the scratch worktree /tmp/wt/<PROP> and store confirmed ones
-P="$1"
+P="$1"; TAG="${2:-m}"
 for m in 1 2; do
   out=/tmp/wt-out/$P
   [ -f $out/m$m.diff ] || { echo "$P-m$m: no diff"; continue; }
   line=$(/verif/tools/confirm_mutant.sh /tmp/wt/$P $out/m$m.diff $out/m$m.demo.sh | grep RESULT)
-  echo "$P-m$m $line"
+  echo "$P-$TAG$m $line"
   if echo "$line" | grep -q "suite_exit=0" && echo "$line" | grep -q "failing_groups=0" && echo "$line" | grep -q "demo_clean=0" && echo "$line" | grep -q "demo_patched=1"; then
     needs=$(grep -i -m1 -A3 "needs\|manifest" $out/m$m.txt | tr '\n' ' ' | cut -c1-400)
-    python3 /verif/tools/store_seeded.py $P-m$m $P $out/m$m.diff $out/m$m.demo.sh $out/m$m.txt "$(echo $line | sed 's/RESULT diff=[^ ]* //')" "$needs"
+    python3 /verif/tools/store_seeded.py $P-$TAG$m $P $out/m$m.diff $out/m$m.demo.sh $out/m$m.txt "$(echo $line | sed 's/RESULT diff=[^ ]* //')" "$needs"
   else
     echo "$P-m$m NOT CONFIRMED"
   fi
